@@ -102,6 +102,13 @@ func (h *H) replay(op []string) (string, bool) {
 			return "", false
 		}
 		return h.replay(append([]string{"xp"}, op[3:]...))
+	case "xpg":
+		// xpg kind class U F num fin key mods sh form rest binds sl sk: as xpu, the `rest` field dropped
+		if len(op) != 15 {
+			return "", false
+		}
+		f := append([]string{"xp"}, op[3:11]...)
+		return h.replay(append(f, op[12:]...))
 	case "xp":
 		if len(op) != 12 {
 			return "", false
